@@ -1247,6 +1247,57 @@ fn run(ctx: &mut Ctx) {
             }
         }
     }
+    // Family W: the amount-column boundary. The printer pads the account to a column; exactly at the boundary the
+    // two blanks that separate an account from what follows are what keeps the meaning (one blank glues the amount
+    // into the account name). Every account display width 1..=64 (ASCII, and names with wide characters) x
+    // number spellings of different widths x {amount, assertion only, amount + assertion} x clear mark.
+    {
+        let numbers = ["1", "12.50", "-1,234.56", "1234567", "0.001"];
+        let mut names: Vec<String> = vec![];
+        for w in 1..=64usize {
+            // ASCII name of exactly w columns
+            names.push(if w <= 2 { "Ab"[..w].to_string() } else { format!("A:{}", "b".repeat(w - 2)) });
+        }
+        for n in 1..=24usize {
+            // wide characters: 2 columns each (w = 2n, and 2n + 2 with an ASCII prefix)
+            names.push("\u{8cc7}".repeat(n));
+            names.push(format!("A:{}", "\u{9280}".repeat(n)));
+        }
+        ctx.fact("W_account_names", names.len() as u64);
+        let mut n_w = 0u64;
+        for name in &names {
+            for num in numbers {
+                for shape in 0..3 {
+                    for mark in ["", "* "] {
+                        n_w += 1;
+                        if !ctx.next_is_mine() {
+                            ctx.skip_cases(1);
+                            continue;
+                        }
+                        let rest = match shape {
+                            0 => format!("  {} USD", num),
+                            1 => format!("  = {} USD", num),
+                            _ => format!("  {} USD = {} USD", num, num),
+                        };
+                        let text = format!("2024/01/01 p\n  {}{}{}\n  B\n", mark, name, rest);
+                        ctx.case(
+                            || format!("column boundary:\n{}", text),
+                            || match judge_text(&text) {
+                                Judged::Rejected(e) => Outcome::violation("documented-text-rejected/column-boundary", e),
+                                Judged::Holds { .. } => {
+                                    tally("W_clause2_and_3_hold");
+                                    Outcome::pass(format!("W/{}", ["amount", "assertion-only", "amount+assertion"][shape]))
+                                }
+                                Judged::Fails(sig, detail) => Outcome::violation(format!("{}/column-boundary", sig), detail),
+                            },
+                        );
+                        flush_tally(ctx);
+                    }
+                }
+            }
+        }
+        ctx.fact("W_texts", n_w);
+    }
     ctx.fact("R_tokens", nt);
     ctx.fact("R_texts", raw_total);
 }
